@@ -28,6 +28,17 @@ def run(ctx, prop="C08"):
             inconclusive = "monitors observed too little: %s" % agg["stats"]
         rule = ("each evaluation: a daemon incarnation (fresh file, or restarted over a segment holding a previous incarnation's Synchronized record) fed a prefix free of synchronised reports: all sequences up to length 3 (quick) / 5 (thorough) over the 8 non-synchronised outcome kinds, then random ones followed by a synchronised report; "
                 "after each message the published record must say Unknown, and a real ClockBoundClient evaluated at virtual uptimes {1 s, 4.9 s, 5 s, 60 s, 999 s, 1000 s + 1 ns, 1e6 s} must report Unknown; distinct_nontrivial = distinct (sequence, drift, restart) triples")
+    life_info = None
+    if prop == "C08":
+        # long lives of the daemon's own writer-thread entry point (nothing of its start-up bypassed)
+        lviol, life_info = daemon.run_real_lives(ctx, 2 if q else 16)
+        for v in lviol:
+            v = dict(v)
+            v["sig"] = "long-life:" + v["sig"]
+            viol.append(v)
+        if life_info.get("inconclusive") and not inconclusive:
+            inconclusive = life_info["inconclusive"]
+        ctx.log("long lives of shm_writer::run(): %s" % life_info)
     tl_info = None
     if prop == "C08":
         # The whole release binary: the record must track the history the *process* has seen, also
@@ -51,6 +62,7 @@ def run(ctx, prop="C08"):
         "samples": samples[:3],
         "stats": agg["stats"],
         "whole_binary_timelines": tl_info,
+        "long_lives_of_the_writer_thread": life_info,
     }
     finish(ctx, coverage, viol, inconclusive, assumptions=["expected bounds use dyadic wire values so that the README formula is exact in integers (independent of C07's arithmetic)"])
 
